@@ -153,6 +153,8 @@ class PipelineResult:
         self.sched = None
         self.fs = None
         self.paths = None
+        self.cli_argv = None
+        self.cli_capture = None
 
     def err_sig(self):
         if self.exc is None:
@@ -185,6 +187,8 @@ def run_pipeline(tables, cfg, workdir, name, fmt="pin", row_group=None, sched_de
             cfg["learner"], ti, cfg["train_fdr"], cfg["max_iter"], cfg["seed"], override=cfg.get("override", False),
             **cfg.get("est_kw", {}),
         )
+    if cfg.get("via_cli"):
+        return _run_cli(res, tables, paths, cfg, dest, ti, sched_desc, knobs, glob_seed, stop_after)
     with world.sim_env(sched_desc, knobs, glob_seed=glob_seed) as (sch, fs):
         res.sched, res.fs = sch, fs
         try:
@@ -278,6 +282,124 @@ def run_pipeline(tables, cfg, workdir, name, fmt="pin", row_group=None, sched_de
                     with open(fp, "rb") as fh:
                         res.files[f] = fh.read()
     return res
+
+
+# ------------------------------------------------------------ the same analysis through the command line
+def cli_args(paths, cfg, dest):
+    """Argument vector of `mokapot.mokapot.main` that asks for the analysis described by cfg."""
+    conf = cfg.get("conf", {})
+    a = [str(p) for p in paths]
+    a += ["--dest_dir", str(dest), "--max_workers", str(cfg["max_workers"]), "--train_fdr", repr(float(cfg["train_fdr"])),
+          "--test_fdr", repr(float(cfg["test_fdr"])), "--max_iter", str(cfg["max_iter"]), "--seed", str(cfg["seed"]),
+          "--folds", str(cfg["folds"]), "--verbosity", "0"]
+    if cfg.get("subset_max_train") is not None:
+        a += ["--subset_max_train", str(cfg["subset_max_train"])]
+    if cfg.get("override"):
+        a.append("--override")
+    if cfg.get("ensemble"):
+        a.append("--ensemble")
+    if conf.get("decoys", True):
+        a.append("--keep_decoys")
+    if not conf.get("rollup", True):
+        a.append("--skip_rollup")
+    if cfg.get("cli_aggregate"):
+        a.append("--aggregate")
+    if cfg.get("cli_file_root"):
+        a += ["--file_root", cfg["cli_file_root"]]
+    if cfg.get("fasta_path"):
+        a += ["--proteins", str(cfg["fasta_path"])]
+        for k, v in (cfg.get("fasta_kw") or {}).items():
+            a += [f"--{k}", str(v)]
+    return a
+
+
+def _run_cli(res, tables, paths, cfg, dest, ti, sched_desc, knobs, glob_seed, stop_after):
+    """The analysis as `mokapot.mokapot.main(argv)` performs it.  The module-level names main() calls are the seam:
+    `PercolatorModel` is replaced by a factory building the scenario's learner from the keyword arguments main() hands
+    over (for the learner kinds perc/default the real class stays), and `read_pin` / `read_fasta` / `brew` are wrapped
+    only to record what they return (the property's point of observation is brew's return value)."""
+    import sys
+
+    import mokapot  # noqa: F401
+
+    cli = sys.modules["mokapot.mokapot"]
+    saved = {k: getattr(cli, k) for k in ("PercolatorModel", "read_pin", "read_fasta", "brew")}
+    cap = {}
+
+    def factory(**kw):
+        cap["model_kw"] = dict(kw)
+        return estimators.make_model(cfg["learner"], ti, kw["train_fdr"], kw["max_iter"], kw["rng"],
+                                     override=kw.get("override", False), **cfg.get("est_kw", {}))
+
+    def read_pin(*a, **kw):
+        res.stage = "read_pin"
+        d = saved["read_pin"](*a, **kw)
+        cap["datasets"] = d
+        res.parsed = [
+            {
+                "feature_columns": list(x.feature_columns),
+                "spectrum_columns": list(x.spectrum_columns),
+                "metadata_columns": list(x.metadata_columns),
+                "level_columns": list(x.level_columns),
+                "n": len(x.spectra_dataframe),
+                "targets": x.spectra_dataframe[x.target_column].astype(bool).tolist(),
+            }
+            for x in d
+        ]
+        res.stage = "main_after_read_pin"
+        return d
+
+    def read_fasta(*a, **kw):
+        res.stage = "read_fasta"
+        pr = saved["read_fasta"](*a, **kw)
+        res.proteins = pr
+        res.stage = "main_after_read_fasta"
+        return pr
+
+    def brew(*a, **kw):
+        res.stage = "brew"
+        cap["brew_kw"] = {k: v for k, v in kw.items() if k not in ("model",)}
+        ret = saved["brew"](*a, **kw)
+        psms, models, scores, descs = ret
+        res.models = list(models)
+        res.raw_scores = list(scores)
+        res.scores = [np.array(s, dtype=float, copy=True).reshape(-1) for s in scores]
+        res.descs = list(descs)
+        res.stage = "assign_confidence"
+        if stop_after == "brew" or not cfg.get("confidence"):
+            raise _StopCli()
+        return ret
+
+    argv = cli_args(paths, cfg, dest)
+    res.cli_argv = argv
+    with world.sim_env(sched_desc, knobs, glob_seed=glob_seed) as (sch, fs):
+        res.sched, res.fs = sch, fs
+        try:
+            if cfg["learner"] not in ("perc", "default"):
+                cli.PercolatorModel = factory
+            cli.read_pin, cli.read_fasta, cli.brew = read_pin, read_fasta, brew
+            res.stage = "main"
+            cli.main(argv)
+            res.stage = "done"
+        except _StopCli:
+            pass
+        except (Exception, SystemExit) as exc:  # noqa: BLE001
+            res.exc = exc
+            res.error = f"{short_msg(exc)} at {exc_site(exc)} (stage {res.stage})"
+        finally:
+            for k, v in saved.items():
+                setattr(cli, k, v)
+            for f in sorted(os.listdir(dest)):
+                fp = dest / f
+                if fp.is_file():
+                    with open(fp, "rb") as fh:
+                        res.files[f] = fh.read()
+    res.cli_capture = cap
+    return res
+
+
+class _StopCli(Exception):
+    pass
 
 
 # ------------------------------------------------------------ result parsing
